@@ -91,6 +91,9 @@ structure SendRel (st : St) (t : Track) (rid : Rid) (b : Batch) : Prop where
   chain : (t.chain : Int) ≤ st.attempts
   sub : ∀ tp ∈ b.current, tp ∈ b.live
   nodup : b.current.Nodup
+  ne : b.current ≠ []
+  /-- if every result so far accounted for its request, nothing unacknowledged is left out of the attempt -/
+  al : t.acct = true → ∀ tp ∈ b.live, tp ∈ b.current
 
 /-- while the retry timer is pending -/
 structure RetryRel (cfg : Cfg) (st : St) (t : Track) (tid : Tid) (b : Batch) (tps : List TP) : Prop where
@@ -102,6 +105,8 @@ structure RetryRel (cfg : Cfg) (st : St) (t : Track) (tid : Tid) (b : Batch) (tp
   sub : ∀ tp ∈ tps, tp ∈ b.live
   nodup : tps.Nodup
   nostop : st.stopping = false
+  ne : tps ≠ []
+  al : t.acct = true → ∀ tp ∈ b.live, tp ∈ tps
 
 structure Rel (cfg : Cfg) (st : St) (t : Track) : Prop where
   stopped : t.stopped = st.stopping
@@ -138,7 +143,8 @@ theorem SendRel.congr {st : St} {t t' : Track} {rid : Rid} {b : Batch} (h : Send
   have e1 : t.cur = t'.cur := norm_field (·.cur) (fun _ => rfl) hn
   have e2 : t.curRes = t'.curRes := norm_field (·.curRes) (fun _ => rfl) hn
   have e3 : t.chain = t'.chain := norm_field (·.chain) (fun _ => rfl) hn
-  exact ⟨by rw [← e1]; exact h.cur, by rw [← e2]; exact h.res, h.br.congr hn, by rw [← e3]; exact h.chain, h.sub, h.nodup⟩
+  exact ⟨by rw [← e1]; exact h.cur, by rw [← e2]; exact h.res, h.br.congr hn, by rw [← e3]; exact h.chain, h.sub, h.nodup, h.ne,
+    by rw [← (norm_field (·.acct) (fun _ => rfl) hn : t.acct = t'.acct)]; exact h.al⟩
 
 theorem RetryRel.congr {cfg : Cfg} {st : St} {t t' : Track} {tid : Tid} {b : Batch} {tps : List TP}
     (h : RetryRel cfg st t tid b tps) (hn : norm t = norm t') : RetryRel cfg st t' tid b tps := by
@@ -148,7 +154,8 @@ theorem RetryRel.congr {cfg : Cfg} {st : St} {t t' : Track} {tid : Tid} {b : Bat
   have e5 : t.batchTps = t'.batchTps := norm_field (·.batchTps) (fun _ => rfl) hn
   have e6 : t.acked = t'.acked := norm_field (·.acked) (fun _ => rfl) hn
   exact ⟨by rw [← e4]; exact h.tid, by rw [← e2, ← e5, ← e6]; exact h.res, h.br.congr hn, by rw [← e3]; exact h.chain,
-    h.att, h.sub, h.nodup, h.nostop⟩
+    h.att, h.sub, h.nodup, h.nostop, h.ne,
+    by rw [← (norm_field (·.acct) (fun _ => rfl) hn : t.acct = t'.acct)]; exact h.al⟩
 
 theorem Rel.congr {cfg : Cfg} {st : St} {t t' : Track} (h : Rel cfg st t) (hn : norm t = norm t') : Rel cfg st t' := by
   have e1 : t.cur = t'.cur := norm_field (·.cur) (fun _ => rfl) hn
